@@ -93,26 +93,34 @@ def cases(tier, seed):
                 out.append({"desc": d, "opts": opts, "source": ["list", "ref_Y", "ref_IR"][k % 3],
                             "schedules": (li in (0, len(Ls) - 1) and gi == 0) or (tier == "thorough" and mi < 3), "w": len(opts) * nlev,
                             "default_output": li == 0 and gi == 0})
-    if tier == "thorough":
-        # the full product of the factors that the cases above only rotate (ghost width x species count x geometry x time x
-        # species source x every option triple) on the three hand-made meshes, three layout classes of the state subset
-        for mi, mesh in enumerate(meshes()):
-            nlev = len(mesh["levels"])
-            lvmax = max(range(nlev), key=lambda l: len(mesh["levels"][l]))
-            nb = len(mesh["levels"][lvmax])
-            Ls = scope.layouts(nb, 'idrev') if nb > 1 else [None]
-            named = [Ls[0], Ls[-1], Ls[len(Ls) // 2]] if nb > 1 else [None]
-            for li, lay in enumerate(named):
-                for ghost, nsp, gi, ti, src in itertools.product([1, 2, 3], [1, 2, 3], range(5), range(4), ["list", "ref_Y", "ref_IR"]):
-                    lays = {"state": [None] * nlev, "gradp": [None] * nlev, "I_R": [None] * nlev}
-                    lays["state"][lvmax] = lay
-                    lays["gradp"][lvmax] = named[(li + 1) % len(named)]
-                    lays["I_R"][lvmax] = named[(li + 2) % len(named)]
-                    d = dict(mesh)
-                    d.update(GEOS[gi])
-                    d.update({"layouts": lays, "ghost": ghost, "nspecies": nsp, "time": TIMES[ti], "seed": seed, "int_line": False})
-                    out.append({"desc": d, "opts": [list(o) for o in itertools.product([True, False], repeat=3)], "source": src,
-                                "schedules": False, "w": 8 * nlev})
+    # the product of the factors that the cases above only rotate, on the three hand-made meshes with three layout classes of the
+    # state subset: thorough = ghost width x species count x geometry x time x species source x every option triple;
+    # quick = ghost width x species count x species source (geometry and time rotate), three option triples
+    for mi, mesh in enumerate(meshes()):
+        nlev = len(mesh["levels"])
+        lvmax = max(range(nlev), key=lambda l: len(mesh["levels"][l]))
+        nb = len(mesh["levels"][lvmax])
+        Ls = scope.layouts(nb, 'idrev') if nb > 1 else [None]
+        named = [Ls[0], Ls[-1], Ls[len(Ls) // 2]] if nb > 1 else [None]
+        for li, lay in enumerate(named):
+            if tier == "thorough":
+                prod = itertools.product([1, 2, 3], [1, 2, 3], range(5), range(4), ["list", "ref_Y", "ref_IR"])
+            else:
+                prod = ((g_, n_, (g_ + 2 * n_ + si_ + li + seed) % 5, (g_ + n_ + 3 * si_ + mi + seed) % 4, s_)
+                        for g_, n_, (si_, s_) in itertools.product([1, 2, 3], [1, 2, 3], enumerate(["list", "ref_Y", "ref_IR"])))
+            for ghost, nsp, gi, ti, src in prod:
+                lays = {"state": [None] * nlev, "gradp": [None] * nlev, "I_R": [None] * nlev}
+                lays["state"][lvmax] = lay
+                lays["gradp"][lvmax] = named[(li + 1) % len(named)]
+                lays["I_R"][lvmax] = named[(li + 2) % len(named)]
+                d = dict(mesh)
+                d.update(GEOS[gi])
+                d.update({"layouts": lays, "ghost": ghost, "nspecies": nsp, "time": TIMES[ti], "seed": seed, "int_line": False})
+                if tier == "thorough":
+                    opts = [list(o) for o in itertools.product([True, False], repeat=3)]
+                else:
+                    opts = [[True, False, True], [False, True, False], [True, True, True]]
+                out.append({"desc": d, "opts": opts, "source": src, "schedules": False, "w": len(opts) * nlev})
     # histories: two or three conversions in one process whose checkpoints differ in species count, ghost width and mesh
     def hist_case(mi, nsp, ghost, opts, source="list"):
         d = dict(meshes()[mi])
